@@ -74,7 +74,10 @@ def _variants(evname, role):
     return [('slot-none', lambda: None),
             ('slot-last-sent', lambda: e2.make_primitive(('accept',))),
             ('slot-last-received', dec(P.AAssociateRqPDU, e2.std_rq())),
-            ('slot-pdata', dec(P.PDataTfPDU, e2.pdata(1, 3, e2.echo_cmd())))] + bad
+            ('slot-pdata', dec(P.PDataTfPDU, e2.pdata(1, 3, e2.echo_cmd()))),
+            # Sta13 is where the slot can hold an A-ABORT: the user's own request (AA-1 took it there) or the provider's (AA-8)
+            ('slot-user-abort', (lambda: e2.make_primitive(('abort', 0, 5))), {'only_sta': (13,), 'same_wire_as': 0}),
+            ('slot-provider-abort', (lambda: P.AAbortPDU(source=2, reason_diag=1)), {'only_sta': (13,), 'same_wire_as': 0})] + bad
 
 
 def _store_data():
@@ -142,6 +145,8 @@ def run_cell(cell):
                 prov.primitive = e2.make_primitive(what)
                 sm.action({'release_rq': 10}[what[0]])
         env._drain(prov)
+    if cfg.get('only_sta') and sta not in cfg['only_sta']:
+        return [], ('skipped', 'n/a')
     sm.current_state = sta - 1
     t0 = env.clock.now
     if artim:
@@ -233,6 +238,21 @@ def run_cell(cell):
         viol.append((sig + ':artim-not-restarted', '%s: ARTIM was not (re)started (still counting from %r)' % (where, obs['timer'])))
     if obs['state'] != nsta:
         viol.append((sig + ':next-state', '%s moved to Sta%d, the standard prescribes Sta%d' % (where, obs['state'], nsta)))
+    if cfg.get('same_wire_as') is not None and not viol:
+        # the event carries no PDU: what is sent must not depend on what an earlier event left in the slot
+        ref_env = e2.Env(role, [])
+        rp = ref_env.prov
+        rp.event.clear()
+        if rp.dul_socket is None:
+            rp.dul_socket = ref_env.new_socket()
+        rp.state_machine.current_state = sta - 1
+        rp.primitive = _variants(evname, role)[cfg['same_wire_as']][1]()
+        ref_env.cur = ref_env._new_step((evname,))
+        rp.state_machine.action(n - 1)
+        ref = _observe(ref_env, rp, None)
+        if ref['wire'] != obs['wire']:
+            viol.append((sig + ':stale-slot-on-wire', '%s sent %r; with an empty slot the same event sends %r: what an earlier event left in the '
+                         'current-PDU slot went out again' % (where, obs['wire'], ref['wire'])))
     return viol, ('defined', 'ok')
 
 
